@@ -90,6 +90,8 @@ class Evaluator(object):
             return self.coerce(SV(sv.t.get(cx, sv.e), sv.t.inner), t, what, st)
         if isinstance(t, TRef) and isinstance(sv.t, TRef):
             return SV(sv.e, t)
+        if isinstance(t, TMap) and isinstance(sv.t, TMap) and sv.meta and sv.meta.get("empty_set"):
+            return SV(z3.K(t.k.sort(cx), z3.BoolVal(False)), t)
         if isinstance(t, TMap) and isinstance(sv.t, TMap) and t.sort(cx) == sv.t.sort(cx):
             return SV(sv.e, t)
         if isinstance(t, TOpt):
